@@ -307,7 +307,7 @@ def systematic(ctx, hcmd, dcmd):
         n = 0
         for sched, out in g:
             n += 1
-            runs.append(run_from_conf(conf, "replay " + " ".join(sched)))
+            runs.append(run_from_conf(conf, "prefix " + " ".join(sched)))
         exh["%s bound=%d" % (conf, bound)] = {"schedules": n, "exhausted": g.exhausted}
     ctx.cov["systematic"] = exh
     ctx.cov["exhaustive"] = all(v["exhausted"] for v in exh.values())
@@ -384,6 +384,30 @@ def main(ctx):
     systematic(ctx, hcmd, dcmd)
 
 
+def _run_for_replay(hcmd, ops):
+    """A recorded schedule may end in a deadlock (nothing left to schedule) or may not fit the current
+    tree (after a fix other threads are enabled): replay it as a prefix and let the scheduler continue
+    non-preemptively; if the prefix itself no longer applies, keep the part that does."""
+    conf = [l for l in ops if not l.startswith("sched ") and l != "run"]
+    sched = next((l for l in ops if l.startswith("sched ")), "sched random 1")
+    toks = sched.split()[2:] if sched.split()[1] in ("replay", "prefix") else None
+    if toks is None:
+        return vlib.run_one(hcmd, ops), ops
+    cur = toks
+    for _ in range(3):
+        ops2 = conf + ["sched prefix " + " ".join(cur), "run"]
+        a = vlib.run_one(hcmd, ops2)
+        end = next((l for l in a["out"] if l.startswith("end ")), "")
+        if a["crash"] or "replay-diverged" not in end:
+            return a, ops2
+        try:
+            n = int(end.split("steps=")[1])
+        except (IndexError, ValueError):
+            n = 0
+        cur = cur[:max(0, min(n, len(cur) - 1))]
+    return a, ops2
+
+
 def replay(ctx, path):
     hcmd, dcmd = build(ctx)
     vlib.lake_build(["drv_c02"])
@@ -392,21 +416,23 @@ def replay(ctx, path):
     if not ops:
         print("replay names a broken obligation only:", r.get("broken"))
         return 2
-    a = vlib.run_one(hcmd, ops)
-    b = vlib.run_one(dcmd, ops)
+    if not any(l.startswith("conf ") for l in ops):
+        return vlib.replay_file(ctx, path, hcmd, dcmd)
+    a, ops_used = _run_for_replay(hcmd, ops)
     print("\n".join(a["out"]))
     if a["crash"]:
         print("VIOLATION property=C02 replay=%s" % path)
         print("crash: " + a["crash"][:1000])
         return 1
-    conf = next((l for l in ops if l.startswith("conf ")), None)
-    if conf is not None:
-        run = run_from_conf(conf, "")
-        msg = c03_judge(run, a["out"])
-        if msg:
-            print("VIOLATION property=C02 replay=%s" % path)
-            print(msg)
-            return 1
+    conf = next(l for l in ops if l.startswith("conf "))
+    run = run_from_conf(conf, "")
+    msg = c03_judge(run, a["out"])
+    if msg:
+        print("VIOLATION property=C02 replay=%s" % path)
+        print(msg)
+        return 1
+    sched = next((l[len("schedule "):] for l in a["out"] if l.startswith("schedule ")), "")
+    b = vlib.run_one(dcmd, [conf, "sched replay " + sched, "run"])
     strip = lambda ls: [l for l in ls if not l.startswith("#")]
     if strip(a["out"]) != strip(b["out"]):
         print("model and implementation traces differ")
